@@ -128,19 +128,19 @@ type Exec struct {
 	writes    map[*ssa.BasicBlock]map[string]bool // comps and cells ("cell:<ptr>") written per block
 	cellByKey map[string]*ssa.Alloc
 
-	defers []*ssa.Defer
+	defers    []*ssa.Defer
 	sideCells map[*ssa.Alloc]Value
 	deferRecs []deferRec
 	quiet     int // >0 while evaluating inside a quantifier: no side facts may be emitted
 
 	fl *floatCtx
 
-	strConsts map[string]string
-	anchors   map[string]int
-	usedCallees map[string]bool
+	strConsts     map[string]string
+	anchors       map[string]int
+	usedCallees   map[string]bool
 	checkOverflow bool
-	inputs   []ModelVar
-	lemmaMode bool
+	inputs        []ModelVar
+	lemmaMode     bool
 }
 
 func (e *Exec) fresh(prefix string) string {
@@ -256,6 +256,9 @@ func (e *Exec) curPos() token.Pos {
 // oblige registers an obligation reach ∧ guard ⇒ goal.
 func (e *Exec) oblige(class, label, clauseText string, props []string, guard, goal string) {
 	if e.discovery {
+		return
+	}
+	if (strings.HasPrefix(class, "safe.") || class == "nofatal" || class == "nopanic") && e.CS.NoSafety[e.Prop] {
 		return
 	}
 	if (strings.HasPrefix(class, "safe.") || class == "nofatal" || class == "nopanic") && e.Con != nil && len(e.Con.Safety) > 0 && e.Prop != "" {
@@ -607,7 +610,9 @@ func (e *Exec) mergeStates(ins []incoming) *State {
 			cells = append(cells, c)
 		}
 	}
-	sort.Slice(cells, func(i, j int) bool { return cells[i].Pos() < cells[j].Pos() || (cells[i].Pos() == cells[j].Pos() && cells[i].Name() < cells[j].Name()) })
+	sort.Slice(cells, func(i, j int) bool {
+		return cells[i].Pos() < cells[j].Pos() || (cells[i].Pos() == cells[j].Pos() && cells[i].Name() < cells[j].Name())
+	})
 	for _, c := range cells {
 		sl := slotsOf(c.Type().(*types.Pointer).Elem())
 		n := len(ins[0].st.cells[c])
